@@ -74,6 +74,8 @@ var c12Times = []time.Time{
 	time.Date(2020, 1, 1, 14, 0, 0, 0, time.FixedZone("plus2", 7200)), // = 12:00Z
 	time.Date(2020, 1, 1, 12, 0, 0, 1, time.UTC),
 	time.Date(2021, 6, 30, 23, 59, 59, 0, time.UTC),
+	time.Date(1500, 3, 1, 0, 0, 0, 0, time.UTC), // outside the range of int64 nanoseconds since 1970
+	time.Date(2300, 3, 1, 0, 0, 0, 0, time.UTC),
 }
 
 // C12 (a'): time keys order chronologically (anchors from a concrete pool:
